@@ -218,6 +218,7 @@ type TypeDef struct {
 	Ifaces  []string `json:"ifaces"`
 	Members []string `json:"members"`
 	Values  []string `json:"values,omitempty"` // enum
+	InFields []ArgDef `json:"infields,omitempty"` // input object
 }
 
 type Universe struct {
@@ -390,6 +391,12 @@ func (u *Universe) SDL() string {
 			b.WriteString("union " + n + " = " + strings.Join(t.Members, " | ") + "\n")
 		case "ENUM":
 			b.WriteString("enum " + n + " { " + strings.Join(t.Values, " ") + " }\n")
+		case "INPUT_OBJECT":
+			b.WriteString("input " + n + " {\n")
+			for _, f := range t.InFields {
+				b.WriteString("  " + f.N + ": " + f.Type.String() + "\n")
+			}
+			b.WriteString("}\n")
 		}
 	}
 	return b.String()
